@@ -26,8 +26,10 @@ const ROOT: u32 = 1;
 const LINKS: [(u32, u32); 10] = [(2, 1), (3, 1), (4, 1), (6, 1), (8, 1), (9, 1), (10, 1), (11, 1), (5, 2), (7, 5)];
 const MAX_TERM: u32 = 11;
 /// pairwise unrelated terms for the "flat" families: input i is the singleton {FLAT[i]}
-const FLAT: [u32; 7] = [2, 3, 4, 6, 8, 9, 10];
-const MAX_N: usize = 7;
+const FLAT: [u32; 8] = [2, 3, 4, 6, 8, 9, 10, 11];
+const MAX_N: usize = 8;
+/// largest n of the rank-order spaces (the merge-history spaces go up to MAX_N)
+const MAX_N_RANKS: usize = 7;
 /// largest cluster index + 1 for n = MAX_N (2n-1 nodes in the dendrogram)
 const MAX_NODES: usize = 2 * MAX_N - 1;
 
@@ -250,6 +252,21 @@ impl Table {
             }
         }
         Table { m, ival, inf, fixed: None, scale: fam.scale(m) }
+    }
+
+    /// Singleton inputs with explicit integer base distances `ints[i][j]` (value = integer / scale).
+    fn from_ints(inp: &Inputs, ints: &[[u64; MAX_N]; MAX_N], scale: f64) -> Table {
+        let n = inp.n();
+        assert!(inp.atoms.len() == n, "C17 harness: from_ints needs singleton inputs");
+        let mut ival = [[0u64; MAX_ATOMS]; MAX_ATOMS];
+        for i in 0..n {
+            for j in 0..n {
+                if i != j {
+                    ival[inp.atoms[i]][inp.atoms[j]] = ints[i][j];
+                }
+            }
+        }
+        Table { m: n_pairs(n), ival, inf: [[false; MAX_ATOMS]; MAX_ATOMS], fixed: None, scale }
     }
 
     /// Two singleton inputs with the explicit distance `v` between them.
@@ -839,7 +856,8 @@ fn one(ctx: &mut Ctx, env: &Env, inp: &Inputs, rank_of_pair: &[usize], table: &T
                 bytes[2 + 2 * k] = m.0.max(m.1) as u8;
             }
             bytes[1 + 2 * (MAX_N - 1)] = n as u8;
-            ctx.outcome(fnv(&bytes));
+            // n = 8 (every one of 1.6 M merge histories is a distinct outcome): fold to keep the outcome set small
+            ctx.outcome(if n >= 8 { fnv(&bytes) % 65536 } else { fnv(&bytes) });
         }
     }
 }
@@ -1044,6 +1062,115 @@ fn near_orders(ctx: &mut Ctx, env: &Env, n: usize, d: usize, methods: &[Method])
     cases
 }
 
+/// Every merge history of n inputs: at step s any unordered pair of the live clusters is joined and
+/// becomes cluster n+s. A history is the list of joined pairs (a < b). `f` gets every history of
+/// n-1 merges that starts with `prefix`, in lexicographic order of the choices.
+fn for_each_history<F: FnMut(&[(usize, usize)])>(n: usize, upto: usize, prefix: &[(usize, usize)], f: &mut F) {
+    fn rec<F: FnMut(&[(usize, usize)])>(n: usize, upto: usize, live: &mut Vec<usize>, hist: &mut Vec<(usize, usize)>, f: &mut F) {
+        let s = hist.len();
+        if s == upto {
+            f(hist);
+            return;
+        }
+        let k = live.len();
+        for x in 0..k {
+            for y in x + 1..k {
+                let (a, b) = (live[x], live[y]);
+                let saved = live.clone();
+                live.remove(y);
+                live.remove(x);
+                live.push(n + s);
+                hist.push((a, b));
+                rec(n, upto, live, hist, f);
+                hist.pop();
+                *live = saved;
+            }
+        }
+    }
+    let mut live: Vec<usize> = (0..n + prefix.len()).filter(|x| !prefix.iter().any(|p| p.0 == *x || p.1 == *x)).collect();
+    let mut hist = prefix.to_vec();
+    rec(n, upto, &mut live, &mut hist, f);
+}
+
+fn count_histories(n: usize) -> u64 {
+    (2..=n as u64).map(|k| k * (k - 1) / 2).product()
+}
+
+/// The perturbed ultrametric table that forces a merge history under all four methods: the pair of
+/// inputs whose clusters are joined at step s is at height (s+1)*256 plus a distinct perturbation in
+/// 1..=28 (pair index p -> (11 p mod 29) + 1), scaled by 2^-11. Minima, maxima and means of values of
+/// one height stay inside that height's band [(s+1)*256, (s+1)*256 + 28], far below the next height.
+fn history_ints(n: usize, hist: &[(usize, usize)]) -> [[u64; MAX_N]; MAX_N] {
+    let mut members = [0u32; MAX_NODES];
+    for i in 0..n {
+        members[i] = 1 << i;
+    }
+    let mut ints = [[0u64; MAX_N]; MAX_N];
+    for (s, &(a, b)) in hist.iter().enumerate() {
+        members[n + s] = members[a] | members[b];
+        for i in 0..n {
+            for j in 0..n {
+                if members[a] >> i & 1 == 1 && members[b] >> j & 1 == 1 {
+                    let (lo, hi) = (i.min(j), i.max(j));
+                    // index of the pair (lo,hi) in pair_list order
+                    let p = lo * n - lo * (lo + 1) / 2 + (hi - lo - 1);
+                    let v = ((s as u64 + 1) << 8) | ((11 * p as u64) % 29 + 1);
+                    ints[i][j] = v;
+                    ints[j][i] = v;
+                }
+            }
+        }
+    }
+    ints
+}
+
+/// All merge histories of n singleton inputs x 4 methods; the reference computes the expected merges
+/// as usual (the harness additionally asserts that it reproduces the chosen history).
+fn histories(ctx: &mut Ctx, env: &Env, n: usize) {
+    let inp = Inputs::flat(n);
+    let pairs = pair_list(n);
+    let total = count_histories(n);
+    ctx.space(
+        &format!("n{n}/all-merge-histories/all-methods"),
+        &format!("n = {n}: all {total} merge histories (at every step any pair of the live clusters), each forced by a tie-free perturbed ultrametric distance table, x 4 methods; one case = the 18 histories sharing the first {} merges", n - 4),
+    );
+    // one case = all histories sharing the first n-4 merges (6 * 3 * 1 = 18 completions)
+    let mut heads: Vec<Vec<(usize, usize)>> = vec![];
+    for_each_history(n, n - 4, &[], &mut |h| heads.push(h.to_vec()));
+    let mut enumerated = 0u64;
+    for head in &heads {
+        enumerated += 18;
+        if !ctx.take() {
+            continue;
+        }
+        let mut tally = Tally::default();
+        let mut count = 0u64;
+        let mut last: Vec<(usize, usize)> = vec![];
+        for_each_history(n, n - 1, head, &mut |hist| {
+            let ints = history_ints(n, hist);
+            let table = Table::from_ints(&inp, &ints, 2048.0);
+            // the rank order this table realises (for the records)
+            let vals: Vec<u64> = pairs.iter().map(|&(a, b)| ints[a][b]).collect();
+            let mut sorted = vals.clone();
+            sorted.sort_unstable();
+            let rank_of_pair: Vec<usize> = vals.iter().map(|v| sorted.iter().position(|x| x == v).expect("C17 harness: value")).collect();
+            for &method in &METHODS {
+                let rf = reference(&inp, method, &table);
+                let same = rf.tie_at.is_none() && rf.merges.iter().map(|m| (m.0, m.1)).collect::<Vec<_>>() == hist;
+                assert!(same, "C17 harness: the table built for history {hist:?} does not force it under {} (reference: {:?}, tie {:?})", method.name(), rf.merges, rf.tie_at);
+                one(ctx, env, &inp, &rank_of_pair, &table, method, &mut tally);
+            }
+            count += 1;
+            last = hist.to_vec();
+        });
+        assert_eq!(count, 18, "C17 harness: completions of a history head");
+        flush(ctx, n, "merge-histories", true, count, &tally);
+        ctx.sample(|| json!({"n": n, "histories_in_case": count, "last_history (joined cluster indices per step; step s forms cluster n+s)": last,
+            "its_base_distances": Table::from_ints(&inp, &history_ints(n, &last), 2048.0).base_json(&inp)}));
+    }
+    assert_eq!(enumerated, total, "C17 harness: number of merge histories");
+}
+
 /// Input families whose sets contain related terms (2 > 5 > 7 is a chain of ancestors; 1 is the root).
 fn related_families(n: usize, atoms: usize) -> Vec<Inputs> {
     let s = |t: &[u32]| set_of(t);
@@ -1094,7 +1221,8 @@ fn describe_all(f: &[Inputs]) -> String {
 pub fn run(ctx: &mut Ctx) {
     ctx.rule = "an input = (n pairwise term-disjoint input sets, a rank order of the base distances, a linkage method); base distances are those between the atoms (terms; an empty set counts as one pseudo-atom) of the inputs - for singleton inputs these are the n(n-1)/2 pairwise distances - and two sets are at the mean of the base distances between their atoms; \
         the pair of rank r gets the dyadic base distance ((r+1)*2^m + 2^r)/2^(m+6) (m = number of pairs; spaces named linear-/geometric-values use (r+1)/64 resp. 3^r/2^16 instead; spaces named one-infinite-distance put the pair of the largest rank at f32::INFINITY; n2/explicit-distance-values uses the listed f32 values); \
-        a case = a block of rank orders sharing a prefix (up to 10 base distances) or one near-base rank order applied to three base orders (n = 6,7), each run under the listed methods; inputs are distinct by construction; \
+        a case = a block of rank orders sharing a prefix (up to 10 base distances) or one near-base rank order applied to three base orders (n = 6,7), each run under the listed methods; \
+        spaces named all-merge-histories enumerate instead every sequence of merges (any pair of live clusters at every step) and force it with the table: inputs whose clusters are joined at step s are at ((s+1)*256 + p)/2048 with a distinct p in 1..=28 per pair (a case = the 18 histories sharing the first n-4 merges); inputs are distinct by construction; \
         states = rank orders, executions = clusterings, validated = clusterings compared merge by merge (pair, distance, len) with the reference without meeting a tie; non-trivial = validated and (n >= 3 \
         (at least one distance to a newly formed cluster decides or is reported by a later merge) or a border value (+inf, 0, f32::MAX, f32::MIN_POSITIVE) is among the distances or an input is empty / related to another input); extra.ties = clusterings where the reference met two live pairs at the same minimal distance (exact comparison stopped at that step, structural checks still applied)"
         .into();
@@ -1129,7 +1257,7 @@ pub fn run(ctx: &mut Ctx) {
         }
     };
     let env = Env { ont, facts, rec: RefCell::new(Rec::default()) };
-    for n in 2..=MAX_N {
+    for n in 2..=MAX_N_RANKS {
         selfcheck_values(n_pairs(n), Family::Spread);
         selfcheck_values(n_pairs(n), Family::Linear);
         if n <= 5 {
@@ -1262,6 +1390,10 @@ pub fn run(ctx: &mut Ctx) {
     families(ctx, 3);
     families(ctx, 4);
 
+    // ---- every merge history (tree shape x merge order) for n = 6, 7, forced by perturbed ultrametric tables; n = 8 thorough (below)
+    histories(ctx, &env, 6);
+    histories(ctx, &env, 7);
+
     // ---- n = 5: all 10! rank orders
     for &method in &METHODS {
         ctx.space(&format!("n5/all-rank-orders/{}", method.name()), &format!("n = 5: all 3628800 rank orders of the 10 pairwise distances, method {}; one case = 720 orders sharing the first 4 ranks", method.name()));
@@ -1272,11 +1404,12 @@ pub fn run(ctx: &mut Ctx) {
         infinite(ctx, 5);
         // 5 atoms = 10 base distances: 10! rank orders each
         with_empties(ctx, 5, 1, &[2, 5, 3, 4], "one-empty-input");
+        histories(ctx, &env, 8);
         related(ctx, 4, 5);
     }
 
     // ---- n = 6, 7: Kendall-tau balls around three base orders
-    for n in 6..=MAX_N {
+    for n in 6..=MAX_N_RANKS {
         let m = n_pairs(n);
         let d = match (thorough, n) {
             (false, _) => 3,
